@@ -72,6 +72,9 @@ func c14Why(r c14Reg) string {
 	if r.Prefix == "/[" {
 		why = append(why, "glob")
 	}
+	if r.Prefix == "@nlprefix" {
+		why = append(why, "newline-in-prefix")
+	}
 	for _, o := range r.Opts {
 		if strings.HasPrefix(o, "weight=") {
 			if _, err := strconv.ParseFloat(o[7:], 64); err != nil {
@@ -104,7 +107,8 @@ func c14Why(r c14Reg) string {
 
 func TestVerifC14(t *testing.T) {
 	seed := verifx.Seed()
-	var n, expressible, nontrivial int64
+	var n, expressible, nontrivial, skipped int64
+	slice := verifx.EnvInt("VERIF_SLICE", 1)
 	var samples []any
 	err := verifx.EachCase("", func(raw []byte) error {
 		var c c14Case
@@ -112,6 +116,12 @@ func TestVerifC14(t *testing.T) {
 			return err
 		}
 		n++
+		// quick tier: every expressible registration, and a seed-selected share of the (far more
+		// numerous) inexpressible ones
+		if slice > 1 && !c.Expressible && (n+seed)%int64(slice) != 0 {
+			skipped++
+			return nil
+		}
 		if c.Expressible {
 			expressible++
 		}
@@ -119,7 +129,11 @@ func TestVerifC14(t *testing.T) {
 			nontrivial++
 		}
 		port, _ := strconv.Atoi(c.Reg.Port)
-		routing := "urlprefix-" + c.Reg.Prefix
+		prefix := c.Reg.Prefix
+		if prefix == "@nlprefix" {
+			prefix = "/odd\thttp://10.6.6.6:666/\nroute\tdel\tsvc\nroute\tadd\tevil\t/evil\thttp://10.6.6.6:666/\n#"
+		}
+		routing := "urlprefix-" + prefix
 		if len(c.Reg.Opts) > 0 {
 			routing += " " + strings.Join(c.Reg.Opts, " ")
 		}
@@ -269,5 +283,5 @@ func TestVerifC14(t *testing.T) {
 	if err != nil {
 		t.Fatal(err)
 	}
-	verifx.Summary(map[string]any{"cases": n, "expressible": expressible, "distinct_nontrivial": nontrivial, "samples": samples})
+	verifx.Summary(map[string]any{"cases": n - skipped, "generated": n, "expressible": expressible, "distinct_nontrivial": nontrivial, "samples": samples})
 }
